@@ -99,7 +99,7 @@ def main():
         "setup_cmd": "./setup.sh",
         "hooks": {
             "guard": "verif",
-            "enable": "no hook is committed to /repo: checks build with `replace go.lstv.dev/util => /repo`; C19 additionally builds with `go build -tags verif -overlay <generated json>` which rewrites uu's `sync` import to a scheduler shim and adds uu/verif_hooks.go (both generated from /repo's working tree at check time, /repo untouched)",
+            "enable": "no hook is committed to /repo. Every check is built by tools/build_check.sh: tools/ovgen reads /repo's working tree at check time and writes a `go build -overlay` file in which the library files that declare unexported package-level variables (or init functions) are replaced by copies with an appended function that re-initialises those variables, plus <pkg>/verif_hooks.go (//go:build verif) exporting VerifReset(); the check is then built with `go build -tags verif -overlay <generated json>` and `replace go.lstv.dev/util => /repo`. For C19 the overlay additionally redirects package uu's sync, sync/atomic, math/rand, math/rand/v2 and crypto/rand imports to the scheduler / scripted-generator shims in /verif/overlay/verifsync (virtual package go.lstv.dev/util/verifsync). /repo itself is untouched; with the tag off (plain `go test`) none of this exists.",
             "baseline_off_cmd": "cd /repo && GOFLAGS=-mod=mod GOPROXY=off GOSUMDB=off GOTOOLCHAIN=local go test -vet=off -count=1 ./...",
             "source_commits": [],
             "add_only": True,
@@ -107,7 +107,7 @@ def main():
         "engines": [
             {"name": "E1", "path": "/verif/mc/enum.go", "serves_properties": ["C01","C02","C03","C04","C05","C06","C07","C08","C09","C10","C11","C12","C13","C14","C15","C16","C18","C20"], "kind_free_text": ENG["E1"]},
             {"name": "E2", "path": "/verif/mc/enum.go", "serves_properties": ["C17"], "kind_free_text": ENG["E2"]},
-            {"name": "E3", "path": "/verif/mc/sched", "serves_properties": ["C19"], "kind_free_text": ENG["E3"]},
+            {"name": "E3", "path": "/verif/overlay/verifsync/sched.go", "serves_properties": ["C19"], "kind_free_text": ENG["E3"]},
         ],
         "checks": checks,
         "notes": "All checks execute the real code of /repo's working tree on every explored point; exit 0 = held, 1 = VIOLATION line, 2 = infrastructure error (no verdict). known_findings.json lists recorded genuine defects and fixed: entries.",
